@@ -177,6 +177,16 @@ def helper_jobs(tier):
             return dict(rt=rt, rf=rf, et=et, ef=ef, ev=S.array(ev), rr=S.array(rr))
         js.append(make_job('melody.evaluate[est_voicing,ref_reward,%d]' % n, ['melody.evaluate', 'melody.to_cent_voicing', 'melody.freq_to_voicing'], b5,
                            lambda a: MEL.evaluate(a['rt'], a['rf'], a['et'], a['ef'], est_voicing=a['ev'], ref_reward=a['rr']), exact_floats=False))
+    # resampling with time stamps that are NOT on a lattice on which rounding to 10 decimals is the identity
+    for n in ((2,) if tier == 'quick' else (2, 3)):
+        def b6(ctx, n=n):
+            t = C.events(ctx, 't', n, strict=True, hi=10)
+            u = C.events(ctx, 'u', n, strict=True, hi=10)
+            f = S._wrap(np.array([220.0, 440.0, 330.0][:n]))
+            v = S._wrap(np.array([1.0, 1.0, 0.0][:n]))
+            return dict(t=t, f=f, v=v, u=u)
+        js.append(make_job('melody.resample_melody_series[%d frames, free real times]' % n, ['melody.resample_melody_series'], b6,
+                           lambda a: MEL.resample_melody_series(a['t'], a['f'], a['v'], a['u'], kind='nearest'), exact_floats=False, timeout_s=1800))
     return js
 
 
